@@ -447,6 +447,7 @@ class Gen:
             if rng.random() < 0.12:
                 t64 = rng.choice(["i64", "u64"])       # a condition held in a 64-bit register
                 cond = {"k": "cast", "t": t64, "e": cond, "ty": t64}
+            cond = fix_hints(rng, cond, None, False)         # no literal under a foreign hint
             self.lvs.append((c, t))
             body, _ = self.block(ret, depth - 1, sc2, nest, False, loops + 1, pr2)
             self.lvs.pop()
